@@ -21,6 +21,23 @@ STR_TOKENS = ["a", "b", "ab", "c", "x3", "A", "key", "a b", "", "a<b", "path", "
 def spec_part_recipe(rng, node=None):
     """part recipes whose conditions are spec-expressible"""
     rk = rng.choice(["map", "list", "mol"])
+    if rng.random() < 0.15:
+        # "near-primitive" parts: exactly one key / index given as a primitive and nothing else - what a bare
+        # primitive is (or is NOT) coerced to: MapValue(1), MapValue(True), ListValue(0), MapOrListValue(key="a"), ...
+        p = {"rk": rk, "key": None, "index": None, "value": None, "cond": None, "label": None}
+        if rk == "map":
+            p["key"] = ("prim", rng.choice([1, 0, 2, True, 1.5, "a", "1"]))
+        elif rk == "list":
+            p["index"] = ("prim", rng.choice([0, 1, 2, True]))
+        else:
+            which = rng.choice(["key", "index", "both", "differ"])
+            if which in ("key", "both", "differ"):
+                p["key"] = ("prim", rng.choice([1, "a", 0, True]))
+            if which in ("index", "both"):
+                p["index"] = ("prim", p["key"][1] if which == "both" and isinstance(p["key"][1], int) else rng.choice([0, 1]))
+            if which == "differ":
+                p["index"] = ("prim", rng.choice([2, 3]))
+        return p
     p = {"rk": rk, "key": None, "index": None, "value": None, "cond": None, "label": rng.choice([None, None, "lab", "x y"])}
 
     def arg(kinds, prims):
@@ -32,7 +49,7 @@ def spec_part_recipe(rng, node=None):
         return gd.spec_tree_recipe(rng, depth=rng.choice([0, 0, 1]), kinds=kinds, null_p=0.0)
 
     if rk in ("map", "mol"):
-        p["key"] = arg([("key", "none"), ("key", "length"), ("key", "dtype")], ["a", "b", 1, 1.5])
+        p["key"] = arg([("key", "none"), ("key", "length"), ("key", "dtype")], ["a", "b", 1, 1.5, 0, 2, True])
     if rk in ("list", "mol"):
         p["index"] = arg([("index", "none")], [0, 1, 2])
     p["value"] = arg([("value", "none"), ("value", "length"), ("value", "dtype")], [0, "a", 2.5])
